@@ -26,17 +26,24 @@ META = dict(
     rule="case = receiver scenario (A, P, N, wait_tasks_timeout, stop instant, messages with arrival / kind / duration / outcome / "
          "hook and result-backend failures incl. an outage over consecutive messages / acknowledgements that take time; the worker "
          "configured directly, through the real command line (with further worker options such as the sync-pool size mixed in) or "
-         "through the real run_receiver_task); "
+         "through the real run_receiver_task); Further family (own random stream): the REAL taskiq.api.run_receiver_task coroutine runs for the whole scenario over a scripted listen() that raises 0..3 times (ConnectionError, RuntimeError, TimeoutError, OSError, EOFError, a client's own class, a falsy exception object, an ExceptionGroup, BrokerError) as the first thing a session does / right after taking a message / while tasks are in flight / while idle, the remaining messages going to the re-started listening; N and wait_tasks_timeout set by the receiver class handed to it, stop = the finish event it gave to listen(); decided by the direct oracles only, every listen() session held to the statement by its own messages; "
          "non-trivial iff finite A, backlog >= A+P+3 arriving within a burst shorter than the tasks (the worker saturates); "
          "distinct by canonical scenario",
     trusted_base=["model: coq/theories/RecvLTS.v (hand-written LTS of prefetcher / runner / look-ahead / hand-over queue)",
                   "logging shims + raw log -> LTS event grouping: harness/shims.py; virtual-time loop harness/vloop.py",
                   "asyncio semantics assumed by the model: a task step is atomic; Semaphore / Queue / wait as documented"],
     assumptions=["the broker's listen() generator takes a message only at its yield (scripted broker)",
-                 "the broker generator raises nothing but StopAsyncIteration"],
+                 "in the proofs the broker generator raises nothing but StopAsyncIteration; runs under run_receiver_task with a failing "
+                 "listen() are oracle-checked only, with 'a worker' read as one listening session (the reading that demands less): "
+                 "what a failed session left unfinished is not counted against the session that replaced it"],
 )
 PROF = dict(limited_only=True, backlog=True, stop_p=.2, n_p=.15, ends_p=.1, wtt_p=.2, outage_p=.12, aw_p=.1)
 PROF_MIX = dict(limited_only=True, stop_p=.3, n_p=.25)
+# run_receiver_task running for the whole scenario over a listen() that fails 0..3 times (recv_props.gen_live)
+PROF_LIVE = dict(limited_only=True, backlog=True, stop_p=.1, n_p=.05, ends_p=.05, wtt_p=.1, outage_p=.05, aw_p=.05, reg_p=.05)
+# ... the connection drops while the first tasks of a long backlog of valid, slow messages are running
+PROF_LIVE_SAT = dict(limited_only=True, backlog=True, backlog_extra=6, faults=False, live_early=.7, stop_p=.05, n_p=0, ends_p=.05, wtt_p=.05,
+                     outage_p=0, aw_p=.03, A_choices=[1, 2, 2, 3, 3, 4], P_choices=[0, 0, 1, 1, 2, 3])
 
 
 PROC_TAGS = ("cb.start", "cb.end", "hook.pre", "hook.post", "hook.post_save", "hook.on_error", "hook.aw", "hook.aw.end", "body.in",
@@ -69,18 +76,21 @@ def oracle(sc, obs):
     for i in cbended:
         if not pending.get(i):
             fin_at.setdefault(last[i], []).append(i)
-    taken = fin = peak = 0
+    # Under run_receiver_task (sc["live"]) "a worker" is read as one listening session (the reading that demands less): the count
+    # is kept per session - messages a failed session left unfinished (still running, or dropped with its hand-over queue) are
+    # not counted against the session that replaced it.  In an ordinary run there is one session.
+    unfin, peak = {}, 0
     when = None
     late = []
     for k, e in enumerate(f.raw):
         if e[1] == "TAKE":
-            taken += 1
+            unfin[f.session_of(e[2])] = unfin.get(f.session_of(e[2]), 0) + 1
         for i in fin_at.get(k, []):
-            fin += 1
+            unfin[f.session_of(i)] = unfin.get(f.session_of(i), 0) - 1
             if e[1] != "cb.end":
                 late.append(i)
-        if taken - fin > peak:
-            peak = taken - fin
+        if unfin and max(unfin.values()) > peak:
+            peak = max(unfin.values())
             when = e[0]
     if peak > bound:
         out.append(dict(what="more than A+P+1 messages taken from the broker and not yet finished",
@@ -135,6 +145,8 @@ def run(ctx):
     r = ctx.sub_rng("gen")
     n = ctx.n(400, 30000)
     scs = [R.gen_scenario(r, PROF if i % 4 else PROF_MIX) for i in range(n)]
+    r4 = ctx.sub_rng("gen-live")             # own stream: the scenarios above are what they were
+    scs += [R.gen_live(r4, PROF_LIVE_SAT if i % 2 else PROF_LIVE) for i in range(ctx.n(80, 4000))]
     broken = explore(ctx, rep, scs, "main")
     if not ctx.quick:
         broken = explore(ctx, rep, R.grid_scenarios(), "grid") or broken
